@@ -61,10 +61,13 @@ def case_records(case: dict):
         has_z=d.get("has_z", True),
         w_dtype=d.get("w_dtype", "f8"),
         z_dtype=d.get("z_dtype", "f8"),
+        coord_dtype=d.get("coord_dtype", "f8") if d.get("degrees", True) else "f8",
     )
     if not d.get("degrees", True):
-        rec["ra"] = np.deg2rad(rec["ra"])
-        rec["dec"] = np.deg2rad(rec["dec"])
+        cdt = d.get("coord_dtype", "f8")
+        cdt = cdt if cdt.startswith("f") else "f8"
+        rec["ra"] = np.deg2rad(rec["ra"]).astype(cdt)
+        rec["dec"] = np.deg2rad(rec["dec"]).astype(cdt)
     p = case["patch"]
     centers = None
     pids = None
@@ -78,7 +81,7 @@ def case_records(case: dict):
         centers = wl.gen_centers(p.get("center_seed", d["data_seed"] + 5), p["k"], d.get("region", "box"))
         deg = dict(rec)
         if not d.get("degrees", True):
-            deg["ra"], deg["dec"] = np.rad2deg(rec["ra"]), np.rad2deg(rec["dec"])
+            deg["ra"], deg["dec"] = np.rad2deg(rec["ra"].astype("f8")), np.rad2deg(rec["dec"].astype("f8"))
         centers = wl.ensure_nonempty_centers(deg, centers)
         if p["mode"] == "divide":
             radec = np.deg2rad(np.column_stack([deg["ra"], deg["dec"]]))
@@ -163,7 +166,10 @@ def _make_prior(case, target: str, root: str) -> None:
     if prior == "none":
         return
     if prior in ("catalog", "catalog_trees"):
-        old = wl.gen_records(case["data"]["data_seed"] + 991, 23, region="box", has_w=True, has_z=True)
+        old = wl.gen_records(
+            case["data"]["data_seed"] + 991, 23, region="box", has_w=True, has_z=True,
+            zedges=[0.1, 0.5, 1.0], zpad=-0.01, edge_frac=0.0,
+        )
         centers = wl.ensure_nonempty_centers(old, wl.gen_centers(3, 3, "box"))
         with sequential_mode():
             cat = yaw.Catalog.from_dataframe(
@@ -171,7 +177,7 @@ def _make_prior(case, target: str, root: str) -> None:
                 max_workers=1, **wl.column_kwargs(old),
             )
             if prior == "catalog_trees":
-                cat.build_trees([0.1, 0.5, 1.0])
+                cat.build_trees([0.1, 1.0])
     elif prior == "junkdir":
         os.makedirs(os.path.join(target, "sub"))
         with open(os.path.join(target, "notes.txt"), "w") as f:
